@@ -23,7 +23,7 @@ RULE = ("(candidate set, alternative winner, assertion set) triples: n = 2..5 (6
 REQUIRED = ["trees_built", "trees_with_unpruned_leaf", "trees_fully_pruned", "pruned_nodes_tag_checked", "marker_checked",
             "parse_checked", "set:raire", "set:raire_minus_one", "set:random", "set:redundant", "set:inconsistent", "set:empty", "parse_multi_contest_logs",
             "rendered_tags_checked", "rendered_tags_checked:node_pruned_by_both_kinds",
-            "parse_eliminated_set_names_an_id_outside_the_candidate_list"]
+            "parse_eliminated_set_names_an_id_outside_the_candidate_list", "eliminated_sets_given_as_frozensets"]
 ASSUMPTIONS = ["tag comparison is by assertion content (the module identifies an assertion by list.index, which maps exact "
                "duplicates to one index)"]
 N_CASES = {"quick": 128000, "thorough": 1024000}
@@ -165,6 +165,10 @@ def run_case(case, rec):
     cands, root = case["cands"], case["root"]
     wo = [(l, w, bool(p)) for l, w, p in case["WOLosers"]]
     el = [(c, set(E), bool(p)) for c, E, p in case["IRVElims"]]
+    if len(case["IRVElims"]) % 3 == 1:
+        # records that went through a set() (de-duplication) hold their eliminated sets as frozensets: same sets
+        el = [(c, frozenset(E), p) for c, E, p in el]
+        rec.count("eliminated_sets_given_as_frozensets")
     S = set(cands) - {root}
     sink = io.StringIO()
     with contextlib.redirect_stdout(sink), warnings.catch_warnings():
